@@ -576,10 +576,20 @@ func TestVerifC36Reload(t *testing.T) {
 
 		n := rapid.SampledFrom([]int{2, 2, 2, 3, 4}).Draw(t, "steps")
 		var yamls []string
+		var cfgs []*c36Cfg
 		var prev *c36Cfg
 		for i := 0; i < n; i++ {
+			if i >= 2 && rapid.IntRange(0, 2).Draw(t, fmt.Sprintf("c%d_rollback", i)) == 0 {
+				// roll back: the configuration before the last one, unchanged
+				yamls = append(yamls, yamls[i-2])
+				cfgs = append(cfgs, cfgs[i-2])
+				prev = cfgs[i-2]
+				c.Class("rollback_to_earlier_configuration")
+				continue
+			}
 			cfg := c36GenCfg(t, fmt.Sprintf("c%d", i), prev)
 			yamls = append(yamls, cfg.yaml())
+			cfgs = append(cfgs, cfg)
 			prev = cfg
 		}
 		for i, y := range yamls {
